@@ -613,7 +613,7 @@ def process_case_b(rep, c, impl, text, always, disagree, table_bad):
         rep.violation("has_been_set() is true before anything was installed", {"part": "b", "case_id": c["id"], "case_file": text})
     for i, o in enumerate(c["ops"]):
         r = impl["ops"].get(i)
-        case = {"part": "b", "always": always, "case_id": c["id"], "op_index": i, "op": [str(z) if isinstance(z, dict) else z for z in o],
+        case = {"part": "b", "always": always, "case_id": c["id"], "op_index": i, "op": list(o),
                 "logmax": c["logmax"], "logger": c["logger"], "collector": c["coll"], "case_file": text}
         if r is None:
             rep.violation("the harness produced no output for op %d (crash?)" % i, dict(case, raw=impl["raw"][-800:]))
@@ -849,12 +849,12 @@ def run(ctx):
                 if f.endswith(".case"):
                     t = vlib.read(os.path.join(cdir, f))
                     (cases_a if f.startswith("a") else cases_b).append((parse_case_a if f.startswith("a") else parse_case_b)(t, "corpus-" + f[:-5]))
-        n_a, n_rec, n_b, n_ops = (70, 32, 70, 28) if not ctx.thorough() else (500, 40, 500, 40)
+        n_a, n_rec, n_b, n_ops = (120, 32, 120, 30) if not ctx.thorough() else (600, 40, 600, 40)
         for i in range(n_a):
             cases_a.append(gen_cfg_a(rng, i, n_rec))
         for i in range(n_b):
             cases_b.append(gen_case_b(rng, i, n_ops, malformed=(i % 4 == 3)))
-    wd = os.path.join(ctx.work, "cases")
+    wd = os.path.join(ctx.work, "c18-case-files")   # (coq_eval owns and wipes <work>/cases)
     os.makedirs(wd, exist_ok=True)
 
     # ---- part a: implementation
@@ -883,6 +883,7 @@ def run(ctx):
         t, ri, fi = model_terms_a(c, im)
         terms += t
         index_a[c["id"]] = (ri, fi)
+    ctx.log("part a: %d configurations run" % len(cases_a))
     rep.tie("a:LevelFilter::current()-as-assumed", not cur_bad, "%d configurations" % len(cur_bad), cur_bad[:1] or None)
 
     # ---- part b: implementation (both feature builds)
@@ -916,6 +917,7 @@ def run(ctx):
             key = "%s:%s" % (b, c["id"])
             terms.append((key, "enc_run (run %s false [%s])" % (cfg, "; ".join(t for _, t in mops))))
             index_b[key] = [i for i, _ in mops]
+    ctx.log("part b: %d histories x 2 feature builds run" % len(cases_b))
     rep.tie("b:callsite-table-and-slot-tracking", not table_bad, "%d mismatches between driver tables and the harness" % len(table_bad), table_bad[:1] or None)
 
     # ---- model evaluation
@@ -926,6 +928,7 @@ def run(ctx):
     except Exception as exn:  # ModelEvalError or a parse problem: the tie is broken, the oracle already ran
         rep.tie("model-eval", False, str(exn)[:300])
 
+    ctx.log("model evaluated on %d terms" % len(terms))
     # ---- correspondence
     if model is not None:
         dis_a = []
@@ -982,6 +985,37 @@ def run(ctx):
                     dis_b.append({"case": c["id"], "bin": b, "exists": last_exists, "model": exf})
         rep.tie("correspondence:b(tracing->log)", not dis_b, "%d disagreements over %d steps" % (len(dis_b), n_b_cmp), dis_b[:1] or None)
         rep.traces_validated += n_b_cmp
+    # ---- thorough: the same cases on release builds; observations must equal the debug ones (then the oracle and
+    #      the correspondence carry over), and where they do not the oracle is run on the release observations
+    if ctx.thorough() and not ctx.replay:
+        rbins = {}
+        for pkg, b in (("logbridge", "h_logbridge"), ("logfeat", "h_logfeat"), ("logalways", "h_logalways")):
+            ok, paths, log = cargo_build(ctx, pkg, [b], release=True)
+            if not ok:
+                rep.tie("build-release:" + b, False, vlib.last_error(log))
+                return rep
+            rbins[b] = paths[b]
+        diff = []
+        with ThreadPoolExecutor(max_workers=vlib.NCPU) as ex:
+            rel_a = list(ex.map(lambda c: run_case_a(os.path.join(wd, c["id"] + ".case"), rbins["h_logbridge"]), cases_a))
+        for c, im in zip(cases_a, rel_a):
+            dbg = impl_a[c["id"]]
+            if im["rc"] != dbg["rc"] or im["items"] != dbg["items"] or im.get("current") != dbg.get("current"):
+                diff.append({"part": "a", "case": c["id"]})
+                if im["rc"] == 0 and len(im["items"]) == len(c["items"]):
+                    oracle_a(rep, c, im, texts_a[c["id"]])
+            rep.evaluations += len(im["items"])
+        for always, b, impls in runs_b:
+            with ThreadPoolExecutor(max_workers=vlib.NCPU) as ex:
+                rel_b = list(ex.map(lambda c: run_case_b(os.path.join(wd, c["id"] + ".case"), rbins[b]), cases_b))
+            for c, im in zip(cases_b, rel_b):
+                dbg = impls[c["id"]]
+                if im["rc"] != dbg["rc"] or im["ops"] != dbg["ops"]:
+                    diff.append({"part": "b", "bin": b, "case": c["id"]})
+                    if im["rc"] == 0 and "module" in im:
+                        process_case_b(rep, c, im, texts_b[c["id"]], always, [], [])
+                rep.evaluations += len(im["ops"])
+        rep.tie("release-observations-equal-debug", not diff, "%d cases differ" % len(diff), diff[:1] or None)
     rep.exhaustive = False
     rep.samples = [
         {"a": "record level INFO target 'app' through Log::log, collector table {'log': OFF, default TRACE}", "events": 1,
